@@ -316,6 +316,16 @@ def decide(prop, tier, seed, mod, cases, agg, crashes, timed_out, t0, findings, 
                 pass
             viol_by_key.setdefault(key, []).append((idx, 'worker process died (%s) while running this case; stderr tail: %s' % (desc, tail)))
 
+    extra_cases = {}
+    if hasattr(mod, 'extra_violations'):
+        for key, detail, case in mod.extra_violations(build_info):
+            eidx = -(len(extra_cases) + 2)
+            extra_cases[eidx] = case
+            viol_by_key.setdefault(key, []).append((eidx, detail))
+
+    def case_of(i):
+        return cases[i] if i >= 0 else extra_cases.get(i, {})
+
     evaluations = len(agg.done)
     # ---- reach gate ----------------------------------------------------------------------------------
     required = list(getattr(mod, 'REQUIRED_REACH', []))
@@ -344,7 +354,7 @@ def decide(prop, tier, seed, mod, cases, agg, crashes, timed_out, t0, findings, 
     replay_paths = []
     for key, lst in new_viol:
         idx, detail = lst[0]
-        path = write_replay(prop, cases[idx], idx, seed, {'key': key, 'detail': detail, 'occurrences': len(lst)})
+        path = write_replay(prop, case_of(idx), idx, seed, {'key': key, 'detail': detail, 'occurrences': len(lst)})
         replay_paths.append(path)
         out_lines.append('VIOLATION property=%s replay=%s' % (prop, path))
         out_lines.append('  key=%s occurrences=%d first: %s' % (key, len(lst), detail[:400]))
@@ -399,7 +409,11 @@ def decide(prop, tier, seed, mod, cases, agg, crashes, timed_out, t0, findings, 
         'inconclusive_reasons': reasons,
     }
     if build_info:
-        cov['build'] = build_info
+        def strip(o):
+            if isinstance(o, dict):
+                return {k: strip(v) for k, v in o.items() if not str(k).startswith('_')}
+            return o
+        cov['build'] = strip(build_info)
     if hasattr(mod, 'extra_evidence'):
         cov.update(mod.extra_evidence(agg, counts, metrics) or {})
     wall = time.time() - t0
